@@ -760,7 +760,11 @@ class RotationImplemented(BaseAlignmentModel):
         xp = backend or Backend()
         if out := self._template_mask_cache.get(xp):
             return out
-        if self._n_rotations > 1:
+        # NOTE: a single rotation also has to be applied unless it is the identity.
+        _has_nontrivial_rotation = bool(
+            np.any(np.abs(np.abs(self.quaternions[:, 3]) - 1.0) > 1e-12)
+        )
+        if self._n_rotations > 1 or _has_nontrivial_rotation:
             rotators = [Rotation.from_quat(r).inv() for r in self.quaternions]
             matrices = compose_matrices(
                 np.array(self._template.shape[-3:]) / 2 - 0.5, rotators
@@ -824,6 +828,8 @@ class RotationImplemented(BaseAlignmentModel):
             )
             template_input = xp.stack(_templates, axis=0)  # type: ignore
             mask_input = xp.stack(_masks, axis=0)  # type: ignore
+            if not self._is_multiple():
+                template_input, mask_input = template_input[0], mask_input[0]
         else:
             pool = DaskTaskPool.from_func(self.pre_transform)
             if self._n_templates > 1:
